@@ -10,7 +10,7 @@ from .. import alpha as al
 from .. import codec, engine_s, env
 from .. import lru as L
 from ..alpha import A, Ax, Axy, Ab, Az, Aw, Awx, S, Sx, Sw, Bb, C1
-from ..engine_s import Participant, Query
+from ..engine_s import Participant, Query, Atomic
 from ..run import Outcome
 from ..world import Cfg, build
 
@@ -44,11 +44,24 @@ def pages_set(t, wid, prefixes):
         return frozenset()
 
 
+class PMap(dict):
+    """(source, target) -> weight of the atomic page-link answer; .mult = how many times the
+    atomic answer lists each pair (a pair may legitimately appear twice when the prefixes
+    handed to the query no longer delimit the webentity)."""
+
+    mult = None
+
+
 def plinks_map(t, wid, prefixes):
+    m = PMap()
+    m.mult = collections.Counter()
     try:
-        return {(a, b): w for a, b, w in t.get_webentity_pagelinks(wid, prefixes, include_inbound=True, include_internal=True, include_outbound=True)}
+        for a, b, w in t.get_webentity_pagelinks(wid, prefixes, include_inbound=True, include_internal=True, include_outbound=True):
+            m[(a, b)] = w
+            m.mult[(a, b)] += 1
     except Exception:
-        return {}
+        pass
+    return m
 
 
 def network(t, out=True):
@@ -131,11 +144,15 @@ def judge_plinks(wid, prefixes):
         ms = e.moments[qi]
         out = []
         got = {}
+        mult = collections.Counter()
         for a, b, w in ans:
-            if (a, b) in got:
-                kn = KNOWN_SIG if any(classify_ghost(x, prefixes, e.track_log[qi], e.t) for x in (a, b)) else None
-                out.append(("answer-duplicate", "the page-link query lists %s -> %s twice" % (L.show(a), L.show(b)), kn))
+            mult[(a, b)] += 1
             got[(a, b)] = w
+        for (a, b), n in mult.items():
+            allowed = max([m.mult[(a, b)] for m in ms] + [1])
+            if n > allowed:
+                kn = KNOWN_SIG if any(classify_ghost(x, prefixes, e.track_log[qi], e.t) for x in (a, b)) else None
+                out.append(("answer-duplicate", "the page-link query lists %s -> %s %d times (the atomic query at most %d)" % (L.show(a), L.show(b), n, allowed), kn))
         keys_all = set(ms[0])
         keys_any = set()
         for m in ms:
@@ -223,6 +240,12 @@ def menu():
     m["crawlD"] = Participant("crawlD", lambda t: t.index_batch_crawl_iter({Ab: [P1, Az], Az: [P2], P2: [Ab + b"p:3|"]}, 1))
     m["rule"] = Participant("rule", lambda t: t.add_webentity_creation_rule_iter(A, R["path1"]))
     m["rule2"] = Participant("rule2", lambda t: t.add_webentity_creation_rule_iter(Ab, R["path2"]))
+    # plain requests interleaved at the yield points of the generators (one step each)
+    m["linksX"] = Atomic("linksX", lambda t: t.add_links([(Ab, Pn), (Az, Ab), (P1, Ab)]))
+    m["pageX"] = Atomic("pageX", lambda t: t.add_page(Ab + b"p:0|", crawled=True))
+    m["pagesX"] = Atomic("pagesX", lambda t: t.add_pages([Az + b"p:k|", Az], crawled=True))
+    m["createX"] = Atomic("createX", lambda t: t.create_webentity([Ab]))
+    m["deleteX"] = Atomic("deleteX", lambda t: t.delete_webentity(2, [Ax]))
     m["pages1"] = Query("pages1", lambda t: t.get_webentity_pages_iter(1, WE1), lambda t: pages_set(t, 1, WE1), judge_pages(1, WE1))
     m["pages2"] = Query("pages2", lambda t: t.get_webentity_crawled_pages_iter(2, [Ax]), lambda t: frozenset(d["lru"] for d in t.get_webentity_crawled_pages(2, [Ax])), judge_pages(2, [Ax]))
     m["plinks1"] = Query("plinks1", lambda t: t.get_webentity_pagelinks_iter(1, WE1, include_inbound=True, include_internal=True, include_outbound=True), lambda t: plinks_map(t, 1, WE1), judge_plinks(1, WE1))
@@ -233,7 +256,7 @@ def menu():
     return m
 
 
-RESOLUTION_CHANGERS = {"rule", "rule2"}
+RESOLUTION_CHANGERS = {"rule", "rule2", "createX", "deleteX"}
 
 
 def combos(tier):
@@ -259,6 +282,22 @@ def combos(tier):
         (("crawlB", "netin"), 3, 5),
         (("rule", "net"), 3, 5),
         (("plinks1", "plinks2"), 2, 3),
+        # a plain request landing at every yield point of a generator
+        (("crawlA", "linksX"), U, U),
+        (("crawlB", "linksX"), U, U),
+        (("crawlA", "pageX"), U, U),
+        (("crawlA", "pagesX"), U, U),
+        (("crawlA", "createX"), U, U),
+        (("rule", "linksX"), U, U),
+        (("rule", "pageX"), U, U),
+        (("pages1", "createX"), U, U),
+        (("pages1", "pageX"), U, U),
+        (("plinks1", "linksX"), U, U),
+        (("plinks1", "createX"), U, U),
+        (("crawlC", "deleteX"), U, U),
+        (("net", "linksX"), U, U),
+        (("net", "pageX"), U, U),
+        (("most1", "linksX"), U, U),
     ]
     triples = [
         (("crawlA", "crawlB", "pages1"), 2, 3),
@@ -274,6 +313,9 @@ def combos(tier):
         (("crawlD", "rule", "pages1"), 2, 3),
         (("crawlD", "rule", "plinks1"), 2, 3),
         (("crawlD", "rule", "most1"), 2, 3),
+        (("crawlA", "linksX", "plinks1"), 2, 3),
+        (("crawlA", "createX", "pages1"), 2, 4),
+        (("crawlB", "pageX", "net"), 2, 3),
     ]
     out = []
     # quick: everything on the file back-end (the production path), the memory back-end for the
